@@ -159,18 +159,29 @@ def run_spec(spec, points, tier, visit, quick_slice=0, honesty=False, want_steps
                             # the same points as a Fortran-ordered 2-d array (element [i, j] <-> flat index i*k+j)
                             k = len(combs) // 2
                             forms.append(('arrayF', np.asfortranarray(xs[:2 * k].reshape(2, k))))
+                        if len(combs) >= 2 and spec[0] == 'real':
+                            # the same points, f written so that its values have a complex TYPE with imaginary part exactly
+                            # zero at real x (a function written with cmath, np.emath or `+ 0j`): still a real-valued f
+                            forms.append(('arrayC', xs))
                         for fname_, xa in forms:
                             pi = cm.PointInfo()
                             pi.x = xa
-                            # the Fortran-ordered call also hands over n and order as numpy integers (`for n in np.arange(..)`)
-                            cfg_call = (method, np.int64(n), np.int32(order)) if fname_ == 'arrayF' else cfg
-                            res = cm.run_config(fun, cfg_call, gen, pi, None)
+                            # the Fortran-ordered call also hands over n and order as numpy integers (`for n in np.arange(..)`) and builds
+                            # the object positionally, Derivative(fun, step, method, order, n)
+                            cfg_call = (method, np.int64(n), np.int32(order), 'positional') if fname_ == 'arrayF' else cfg
+                            res = cm.run_config(_complex_typed(fun) if fname_ == 'arrayC' else fun, cfg_call, gen, pi, None)
                             ncalls += 1
                             for i, comb in enumerate(combs[:xa.size]):
                                 t = terms(cfg, gen, comb)
                                 if t is not None:
                                     visit(cfg, gen, comb, t, res, (fname_, i))
     return ncalls
+
+
+def _complex_typed(fun):
+    def f(x):
+        return fun(x) + 0j
+    return f
 
 
 def _elem(v, form):
